@@ -11,6 +11,10 @@ import time
 
 # property -> (harness modules, harness names)
 PROPS: dict[str, dict] = {
+    "C01": {"modules": ["vf.h_ctrl"], "harnesses": ["ctrl-C01"]},
+    "C02": {"modules": ["vf.h_ctrl"], "harnesses": ["ctrl-C02"]},
+    "C03": {"modules": ["vf.h_ctrl"], "harnesses": ["ctrl-C03"]},
+    "C04": {"modules": ["vf.h_ctrl"], "harnesses": ["ctrl-C04"]},
     "C17": {"modules": ["vf.h_wire"], "harnesses": ["shm-wire-smt"]},
     "C08": {"modules": ["vf.h_shm"], "harnesses": ["shm-step"]},
     "C09": {"modules": ["vf.h_shm"], "harnesses": ["shm-step-bytes", "shm-evict-liveness"]},
